@@ -17,7 +17,9 @@ import (
 	"encoding/json"
 	"fmt"
 	"strings"
+	"sync"
 	"sync/atomic"
+	"time"
 
 	"verif/spec"
 	"verif/vk"
@@ -26,7 +28,10 @@ import (
 var R *vk.Run
 
 // failure describes a failed JSON round trip: finding key + human-readable description.
-type failure struct{ key, what string }
+type failure struct {
+	key  string
+	what func() string
+}
 
 // site turns a library frame ("types.(*Weekdays).UnmarshalJSON") into "Weekdays.UnmarshalJSON".
 func site(frame, fallback string) string {
@@ -39,26 +44,72 @@ func site(frame, fallback string) string {
 	return f
 }
 
+// quietGuard recovers a panic without symbolising the stack (cheap); the library frame that keys
+// the finding is looked up once per (site, message) by re-running the call under vk.Guard.
+func quietGuard(fn func()) (panicked bool, msg string) {
+	defer func() {
+		if e := recover(); e != nil {
+			panicked = true
+			msg = fmt.Sprint(e)
+		}
+	}()
+	fn()
+	return
+}
+
+var panicFrames sync.Map // typ + "|" + msg -> frame
+
+func guardFrame(typ string, fn func()) (panicked bool, msg, frame string) {
+	panicked, msg = quietGuard(fn)
+	if !panicked {
+		return
+	}
+	k := typ + "|" + msg
+	if f, ok := panicFrames.Load(k); ok {
+		return true, msg, f.(string)
+	}
+	_, _, frame = vk.Guard(fn) // deterministic code: panics again at the same place
+	panicFrames.Store(k, frame)
+	return true, msg, frame
+}
+
+// violation records a finding; the description is only built for the first case of a key.
+var seenKeys sync.Map
+
+func violation(key string, what func() string, kind string, c any) {
+	if _, dup := seenKeys.LoadOrStore(key, true); dup {
+		R.Violation(key, "", kind, nil) // counted only
+		return
+	}
+	R.Violation(key, what(), kind, c)
+}
+
 // roundTrip: json.Marshal(v), then json.Unmarshal into a fresh zero value of the same type (nil
 // maps, nil pointers). Panics and errors become failures keyed by site and class.
 func roundTrip[T any](typ string, v T) (got T, enc []byte, f *failure) {
 	var err error
-	if p, msg, frame := vk.Guard(func() { enc, err = json.Marshal(v) }); p {
-		return got, nil, &failure{"C14/" + site(frame, typ+".MarshalJSON") + "/panic", fmt.Sprintf("json.Marshal of an in-domain %s panicked: %s", typ, msg)}
+	if p, msg, frame := guardFrame(typ+"/marshal", func() { enc, err = json.Marshal(v) }); p {
+		return got, nil, &failure{"C14/" + site(frame, typ+".MarshalJSON") + "/panic", func() string { return fmt.Sprintf("json.Marshal of an in-domain %s panicked: %s", typ, msg) }}
 	}
 	if err != nil {
-		return got, nil, &failure{"C14/" + typ + ".MarshalJSON/error", fmt.Sprintf("json.Marshal of an in-domain %s failed: %v", typ, err)}
+		e := err
+		return got, nil, &failure{"C14/" + typ + ".MarshalJSON/error", func() string { return fmt.Sprintf("json.Marshal of an in-domain %s failed: %v", typ, e) }}
 	}
 	var fresh T
-	if p, msg, frame := vk.Guard(func() { err = json.Unmarshal(enc, &fresh) }); p {
+	if p, msg, frame := guardFrame(typ+"/unmarshal", func() { var z T; fresh = z; err = json.Unmarshal(enc, &fresh) }); p {
 		class := "panic"
 		if strings.Contains(msg, "nil map") {
 			class = "panic-nil-map"
 		}
-		return got, enc, &failure{"C14/" + site(frame, typ+".UnmarshalJSON") + "/" + class, fmt.Sprintf("json.Unmarshal(%s) into a fresh zero-valued %s panicked: %s", enc, typ, msg)}
+		return got, enc, &failure{"C14/" + site(frame, typ+".UnmarshalJSON") + "/" + class, func() string {
+			return fmt.Sprintf("json.Unmarshal(%s) into a fresh zero-valued %s panicked: %s", enc, typ, msg)
+		}}
 	}
 	if err != nil {
-		return got, enc, &failure{"C14/" + typ + ".UnmarshalJSON/rejects-own-encoding", fmt.Sprintf("json.Unmarshal(%s) into a fresh zero-valued %s failed: %v", enc, typ, err)}
+		e := err
+		return got, enc, &failure{"C14/" + typ + ".UnmarshalJSON/rejects-own-encoding", func() string {
+			return fmt.Sprintf("json.Unmarshal(%s) into a fresh zero-valued %s failed: %v", enc, typ, e)
+		}}
 	}
 	return fresh, enc, nil
 }
@@ -172,10 +223,14 @@ func allPairs(sizes []int, fn func(ix []int)) int64 {
 	return n
 }
 
+var lastFamily = time.Now()
+
 func family(name string, evaluations, distinct int64) {
 	R.Count(evaluations)
 	R.Distinct(distinct)
-	R.Set("family/"+name, map[string]int64{"evaluations": evaluations, "distinct": distinct})
+	now := time.Now()
+	R.Set("family/"+name, map[string]any{"evaluations": evaluations, "distinct": distinct, "seconds": float64(now.Sub(lastFamily).Milliseconds()) / 1000})
+	lastFamily = now
 }
 
 func main() {
@@ -206,7 +261,7 @@ func main() {
 
 	R.Set("unconstrained_executed_not_judged", unconstrained.Load())
 	R.Rule("per family (see coverage keys family/*): accept side = every in-domain value of the stated domain (full domains: dates, HH:mm, PINs, weekday shapes, versions, system times, ports; all-pairs over boundary alphabets for card/profile/task) through json.Marshal -> json.Unmarshal into a fresh zero value and String() -> parser; reject side = every string of the stated small-alphabet families and every single-character substitution/deletion/insertion of the valid spellings, judged by three-valued reference recognisers; date-times = per zone the sorted, de-duplicated set of instants {transition day +-1 at 15 min (quick) / 5 min (thorough) steps, transition instant +-1 s, every hour of 2024, hourly samples in years 1, 1800, 1970, 9999}; distinct = distinct inputs by construction (de-duplicated where families overlap)")
-	R.Assume("the Go toolchain, encoding/json and time/tzdata (zone arithmetic, Time.ZoneBounds cross-checked by an independent 6-hourly scan) are trusted")
+	R.Assume("the Go toolchain, encoding/json and time/tzdata (zone arithmetic: Time.In, Time.Zone, time.Date) are trusted")
 	R.Assume("reference recognisers verif/spec/text.go, verif/spec/hhmm.go and the private calendar/address helpers of this harness are trusted (hand-written from the property text)")
 	R.Assume("date-time transitions are searched in 1800-01-01 ... 2101-01-01; later years repeat the last rule and are represented by year 9999")
 	R.Finish()
